@@ -144,6 +144,12 @@ _SYMS = [
         sel=('Missing', False)),
     Sym('EXAMINE_MISSING', 'auth', 'EXAMINE', 'missing', b'EXAMINE Missing',
         sel=('Missing', True)),
+    # RFC 4466 select parameters: the server may refuse them (NO/BAD), but a
+    # refused SELECT/EXAMINE leaves no mailbox selected
+    Sym('SELECT_B_PARAMS', 'auth', 'SELECT', 'params',
+        b'SELECT BoxB (CONDSTORE)', sel=('BoxB', False)),
+    Sym('EXAMINE_A_PARAMS', 'auth', 'EXAMINE', 'params',
+        b'EXAMINE BoxA (QRESYNC (1 1))', sel=('BoxA', True)),
     Sym('SELECT_INV', 'auth', 'SELECT', 'invalid', b'SELECT'),
     Sym('CREATE_NEW', 'auth', 'CREATE', 'valid', b'CREATE New',
         absent=('New',)),
@@ -782,6 +788,13 @@ def expect(sym: Sym, st: St, caps: tuple[bytes, ...],
     if sym.klass == 'auth':
         if sym.sel is not None:
             box, examine = sym.sel
+            if box in have and sym.kind == 'params':
+                ro = examine or code == b'READ-ONLY'
+                return Exp(_ANY, None, St('SELECTED', st.user, box,
+                                          'ro' if ro else 'rw'),
+                           (St('AUTH', st.user),), 'select-parameters',
+                           'select parameters may be refused; then none is '
+                           'selected')
             if box in have:
                 ro = examine or code == b'READ-ONLY'
                 lat = 'select-answered-read-only' \
